@@ -1002,8 +1002,13 @@ def _compare_flat(a, b):
         return EQUAL, None
     # unmatched atoms: those occurring (deep) in exactly one side
     aa, ab = all_atoms(a), all_atoms(b)
-    only = [x for k, x in aa.items() if k not in ab] + [x for k, x in ab.items() if k not in aa]
-    for x in only:
-        if x.kind == 'call' and x.args[0] not in MODELLED and x.args[0] not in PACKAGE_HEADS:
-            return UNDECIDED, f'unmodelled function {x.args[0]} occurs on one side only'
+    only_a = [x for k, x in aa.items() if k not in ab]
+    only_b = [x for k, x in ab.items() if k not in aa]
+    for side, other in ((only_a, only_b), (only_b, only_a)):
+        for x in side:
+            if x.kind == 'call' and x.args[0] not in MODELLED and x.args[0] not in PACKAGE_HEADS:
+                # an opaque head is decisive only when the other side applies the SAME head (to other arguments)
+                if not any(y.kind == 'call' and y.args[0] == x.args[0] and len(y.args[1]) == len(x.args[1])
+                           for y in other):
+                    return UNDECIDED, f'unmodelled function {x.args[0]} occurs on one side only'
     return DIFFERENT, 'normal forms differ: code - spec = ' + pretty(d)[:400]
